@@ -216,3 +216,15 @@ def check(case, ctx):
     want = (min(b[0] for b in boxes), max(b[1] for b in boxes), min(b[2] for b in boxes), max(b[3] for b in boxes))
     ctx.nontrivial()
     ctx.check(got == want, 'path/union', 'Path.bbox()=%r but the union of the segment boxes is %r' % (got, want))
+    # the box follows the path when its end point is moved through the Path interface (after bbox() was already asked for)
+    from svgpathtools import Arc
+    if not isinstance(path[-1], Arc):
+        far = complex(want[1] + (want[1] - want[0]) + 1.0, want[3] + (want[3] - want[2]) + 2.0)
+        if not (specs[-1][0] == 'L' and gen.C(specs[-1][1]) == far):
+            path.end = far
+            moved = tuple(float(v) for v in ctx.lib('Path.bbox', path.bbox))
+            again = [tuple(float(v) for v in sg.bbox()) for sg in path]
+            want2 = (min(b[0] for b in again), max(b[1] for b in again), min(b[2] for b in again), max(b[3] for b in again))
+            ctx.count('path_end_moved')
+            ctx.check(moved == want2 and moved != got, 'path/stale_after_end_assignment',
+                      'after path.end = %r, Path.bbox()=%r but the union of the segment boxes is %r' % (far, moved, want2))
